@@ -39,6 +39,7 @@ func groupOf(ps []string) string {
 // monitor state of the case being executed (one case at a time per worker process)
 type runState struct {
 	args     []data.Value // injected by verif_arg(i)
+	prev     []data.Value // injected by verif_prev(i) (hist mode)
 	seen     map[int]data.Value
 	bodyRan  int
 	recorded []any // arguments the Go body received
@@ -106,6 +107,12 @@ var hands = []*handFn{
 		}
 		return data.NewNullValue()
 	}},
+	{"verif_prev", 1, func(a []data.Value) data.Value {
+		if i := idx(a[0]); i >= 0 && i < len(cur.prev) {
+			return cur.prev[i]
+		}
+		return data.NewNullValue()
+	}},
 	{"verif_seen", 2, func(a []data.Value) data.Value { cur.seen[idx(a[0])] = a[1]; return nil }},
 	{"verif_res", 1, func(a []data.Value) data.Value { cur.results = append(cur.results, a[0]); return nil }},
 	{"verif_caught", 1, func(a []data.Value) data.Value {
@@ -161,9 +168,17 @@ func (c *Case) script() string {
 	b.WriteString("<?php\n")
 	call := ""
 	args := make([]string, len(c.Args))
+	if c.Mode == "hist" {
+		for i := range c.Args {
+			fmt.Fprintf(&b, "$a%d = verif_prev(%d);\n", i, i)
+		}
+	}
 	for i := range c.Args {
 		if c.Mode == "var" {
 			fmt.Fprintf(&b, "$a%d = %s;\n", i, c.Args[i].Expr)
+			args[i] = fmt.Sprintf("$a%d", i)
+		} else if c.Mode == "hist" {
+			fmt.Fprintf(&b, "$a%d = verif_arg(%d);\n", i, i)
 			args[i] = fmt.Sprintf("$a%d", i)
 		} else {
 			args[i] = fmt.Sprintf("verif_arg(%d)", i)
@@ -188,7 +203,7 @@ func (c *Case) script() string {
 		b.WriteString("try {\n")
 		ind = "    "
 	}
-	if c.Mode == "var" {
+	if c.Mode != "inj" {
 		fmt.Fprintf(&b, "%s$r = %s;\n%sverif_res($r);\n", ind, call, ind)
 	} else {
 		fmt.Fprintf(&b, "%sverif_res(%s);\n", ind, call)
@@ -322,6 +337,9 @@ func (s *sigVM) runCase(c *Case) (res caseResult) {
 	for _, a := range c.Args {
 		st.args = append(st.args, a.ToData())
 	}
+	for _, a := range c.Prev {
+		st.prev = append(st.prev, a.ToData())
+	}
 	if rk != nil {
 		st.ret = goValue(rk, *c.Ret)
 	}
@@ -403,7 +421,15 @@ func (s *sigVM) runCase(c *Case) (res caseResult) {
 	for i, k := range kinds {
 		ex, want := expectFor(sig.Path, k, passed[i])
 		cell := func(fail string) string {
-			return fmt.Sprintf("path=%s,dir=arg,fail=%s,from=%s,class=%s,kind=%s", sig.Path, fail, passed[i].K, passed[i].classFor(k), k.Name)
+			key := fmt.Sprintf("path=%s,dir=arg,fail=%s,from=%s,class=%s,kind=%s", sig.Path, fail, passed[i].K, passed[i].classFor(k), k.Name)
+			if c.Mode == "hist" {
+				key += ",via=reassigned-variable"
+			}
+			return key
+		}
+		hist := ""
+		if c.Mode == "hist" {
+			hist = fmt.Sprintf(" — passed as $a%d, which held %s before `$a%d = <this value>`", i, c.Prev[i], i)
 		}
 		switch ex {
 		case exMustError:
@@ -429,7 +455,7 @@ func (s *sigVM) runCase(c *Case) (res caseResult) {
 						got = st.recorded[i]
 					}
 					res.Viol = append(res.Viol, viol{cell("wrong-value"),
-						fmt.Sprintf("%s: argument %d: the script passed %s, Go received %s (wanted %s)", sig, i, passed[i], showGo(got), showGo(want))})
+						fmt.Sprintf("%s: argument %d: the script passed %s, Go received %s (wanted %s)%s", sig, i, passed[i], showGo(got), showGo(want), hist)})
 				}
 			}
 		case exOpen:
@@ -565,7 +591,7 @@ func workerMain(argv []string) {
 				caseResult
 				Hash   string `json:"h"`
 				Replay *Case  `json:"replay,omitempty"`
-			}{caseResult: res, Hash: lib.Hash(c.Sig.String(), strconv.FormatBool(c.Try), c.Mode, string(aj), string(rj))}
+			}{caseResult: res, Hash: lib.Hash(c.Sig.String(), strconv.FormatBool(c.Try), c.Mode, string(aj), string(rj), fmt.Sprint(len(c.Prev) > 0 && strings.HasSuffix(strings.TrimRight(c.ID, "tn"), "h1")))}
 			fresh := res.Inconcl != ""
 			for _, v := range res.Viol { // a replay for the first two cases of each key is plenty
 				if keySeen[v.Key] < 2 {
